@@ -34,6 +34,9 @@ def to_oa_date(date):
 
 
 def to_date(oadate):
+    # 0001-01-01 .. 9999-12-31; the comparison also rejects NaN
+    if not -693593 <= oadate < 2958466:
+        raise ValueError(f"day number {oadate} is outside the calendar")
     value = oadate - DAYS_EPOCH
     year = 1970
     while value < 0:
